@@ -21,6 +21,9 @@ from harness import tlc
 from harness.common import MachineryFailure, parallel, run_workers
 
 OPTS0 = {"cmpbool": False, "noinplace": False, "quietstr": False}
+# development aid: VERIF_MAXPROC=n caps the number of concurrently running processes of this check
+# (the registered tiers are sized for an idle 16-core machine)
+CAP = int(os.environ.get("VERIF_MAXPROC", "0") or 0)
 
 BINAST = {ast.Add: "add", ast.Sub: "sub", ast.Mult: "mul", ast.Div: "truediv", ast.FloorDiv: "floordiv",
           ast.Mod: "mod", ast.Pow: "pow", ast.LShift: "lshift", ast.RShift: "rshift", ast.BitAnd: "and",
@@ -927,6 +930,8 @@ def tlc_batches(ctx, cases, label, nbatch):
     if not cases:
         return {}
     nbatch = max(1, min(nbatch, (len(cases) + 299) // 300))
+    if CAP:
+        nbatch = min(nbatch, CAP)
     chunks = [cases[i::nbatch] for i in range(nbatch)]
     paths = []
     for k, ch in enumerate(chunks):
@@ -1077,7 +1082,7 @@ def build_programs(ctx):
 
 
 def execute(ctx, progs, nproc=12):
-    nproc = max(1, min(nproc, len(progs) // 100 + 1))
+    nproc = max(1, min(nproc, len(progs) // 100 + 1, CAP or 99))
     jobs = [{"progs": progs[i::nproc]} for i in range(nproc)]
     outs = run_workers("harness.drivers.c01", "work", jobs, ctx.scratch, nproc=nproc)
     cases = [c for o in outs for c in o]
@@ -1106,8 +1111,9 @@ def main(ctx):
     progs = build_programs(ctx)
     t1 = time.time()
     # (M) runs concurrently with the execution of the programs
+    nproc = min(CAP, ctx.pick(5, 14)) if CAP else ctx.pick(5, 14)   # a worker costs ~8 s CPU of imports, the programs ~1 ms each
     mc, cases = parallel([lambda: None if os.environ.get("VERIF_C01_FAMILIES") else model_check(ctx),
-                          lambda: execute(ctx, progs, nproc=ctx.pick(5, 14))])   # a worker costs ~8 s CPU of imports, the programs ~1 ms each
+                          lambda: execute(ctx, progs, nproc=nproc)], max_workers=1 if CAP else 2)
     if mc:
         report_model(ctx, *mc)
     t2 = time.time()
@@ -1247,8 +1253,8 @@ def model_check(ctx):
         cfg = os.path.join(ctx.scratch, "PyExprMC_%s.cfg" % w)
         open(cfg, "w").write("SPECIFICATION Spec\nINVARIANT %s\nCHECK_DEADLOCK FALSE\n" % w)
         runs.append((w, cfg))
-    res = parallel([(lambda c=c, l=l: tlc.run("PyExprMC", c, ctx.scratch, workers=4 if l == "Theorems" else 1, timeout=3000,
-                                               env={"SKELS": path, "JAVA_TOOL_OPTIONS": jopts})) for l, c in runs], max_workers=4)
+    res = parallel([(lambda c=c, l=l: tlc.run("PyExprMC", c, ctx.scratch, workers=(min(4, CAP) if CAP else 4) if l == "Theorems" else 1, timeout=3000,
+                                               env={"SKELS": path, "JAVA_TOOL_OPTIONS": jopts})) for l, c in runs], max_workers=1 if CAP else 4)
     return sk, list(zip([l for l, _ in runs], res))
 
 
